@@ -211,7 +211,7 @@ def run_call(sh, fn, split, bindings, eff, res, desc):
   pos_vals = [('caller', p) for p in sh.pos[:npos]]
   pos_vals = [object() for _ in pos_vals]
   extra = [object() for _ in range(xpos)]
-  kw_vals = {p: object() for p, mode in m.items() if mode == 'kw'}
+  kw_vals = {p: (object() if (npos + xpos + len(eff)) % 2 else None) for p, mode in m.items() if mode == 'kw'}
   if xkw:
     kw_vals['w'] = object()
   ov = overlay(bindings, eff)
@@ -286,7 +286,14 @@ def run_call(sh, fn, split, bindings, eff, res, desc):
       res.w('varkw_binding')
 
 
+_FALSY = {'t': None, 's/t': 0, 's/u': '', 's/t/u': False}
+
+
 def val(p, sc):
+  """Tagged sentinel for the binding of p under scope sc; some scopes carry falsy values (None, 0, '', False),
+  which are bound values like any other."""
+  if sc in _FALSY and p != 'z':
+    return _FALSY[sc]
   return '%s@%s' % (p, sc)
 
 
@@ -491,11 +498,11 @@ def locked_phase(sh, sel, bindings, keys, ACTIVE, spl, res):
     if stage == 'rebound':
       with gin.unlock_config():
         for (sc, p) in list(bindings):
-          bindings[(sc, p)] = val(p, sc) + '#2'
+          bindings[(sc, p)] = '%s@%s#2' % (p, sc)
           gin.bind_parameter((sc, sel, p), bindings[(sc, p)])
         for extra in (('s/t', sh.p1), ('', sh.p2)):
           if extra not in bindings:
-            bindings[extra] = val(extra[1], extra[0]) + '#new'
+            bindings[extra] = '%s@%s#new' % (extra[1], extra[0])
             gin.bind_parameter((extra[0], sel, extra[1]), bindings[extra])
     for act in ACTIVE:
       for split in spl:
